@@ -323,6 +323,9 @@ LGTerms ==
      Op("le", <<Op("minus", <<Xx, Yy>>), IntC(3)>>), Op("le", <<Op("minus", <<Op("minus", <<Xx, IntC(1)>>), Yy>>), IntC(3)>>),
      Op("equals", <<Op("minus", <<Xx, Yy>>), Op("minus", <<Yy, Xx>>)>>),
      Op("le", <<Op("minus", <<Xx, Yy>>), Sym("z", TInt)>>),
+     Op("le", <<Op("ite", <<P, Xx, Yy>>), Op("minus", <<IntC(3), Sym("z", TInt)>>)>>),
+     Op("le", <<Op("minus", <<App("f", TF1, <<Xx>>), Yy>>), Sym("z", TInt)>>),
+     Op("lt", <<Op("minus", <<Xx, App("f", TF1, <<Yy>>)>>), IntC(3)>>),
      \* a sort that occurs ONLY as the index / element sort of an INNER array sort (two and three levels down)
      Op("equals", <<Sym("nb", TArray(TInt, TArray(TBV(4), TInt))), Sym("nb2", TArray(TInt, TArray(TBV(4), TInt)))>>),
      Op("equals", <<Sym("nr", TArray(TInt, TArray(TReal, TInt))), Sym("nr2", TArray(TInt, TArray(TReal, TInt)))>>),
